@@ -251,7 +251,7 @@ func TestVerifC20Tunnel(t *testing.T) {
 				for _, n := range chain {
 					pc := c17Valid[n]
 					if n == "size_limit" {
-						pc = sizeLimitCfg(1<<20, 1<<20)
+						pc = sizeLimitCfg(512, 512) // far below the volume of a session: body limits do not apply to a tunnel
 					}
 					cfg.Plugins.Chain = append(cfg.Plugins.Chain, pc)
 				}
@@ -327,7 +327,7 @@ func TestVerifC20Tunnel(t *testing.T) {
 			for _, n := range chain {
 				pc := c17Valid[n]
 				if n == "size_limit" {
-					pc = sizeLimitCfg(1<<20, 1<<20)
+					pc = sizeLimitCfg(512, 512) // far below the volume of a session: body limits do not apply to a tunnel
 				}
 				cfg.Plugins.Chain = append(cfg.Plugins.Chain, pc)
 			}
